@@ -1,7 +1,248 @@
-//! Instantiated (monomorphic) call graph from configured roots.
+//! Instantiated (monomorphic) call graph from configured roots — the algorithm of rustc's mono-item
+//! collector restricted to call edges: every body is taken with the instance's substitutions applied
+//! and every call is resolved under `TypingEnv::fully_monomorphized()`. Polymorphic roots are walked
+//! with identity substitutions (calls on their type parameters stay unresolved leaves).
+//!
+//! Roots come from $YLINT_MONO_ROOTS: `;`-separated canonical function paths, plus the keyword
+//! `@decode-impls` = `decode_v1`/`decode_v2` of every non-generic `impl Decode for T` of the crate.
 use crate::json::J;
-use rustc_middle::ty::TyCtxt;
+use crate::mir_dump::{cpath, path_str, ty_str};
+use crate::obj;
+use rustc_hir::def::DefKind;
+use rustc_middle::mir::TerminatorKind;
+use rustc_middle::ty::{self, Instance, InstanceKind, TyCtxt, TypeVisitableExt};
+use rustc_span::def_id::{DefId, LOCAL_CRATE};
+use std::collections::{HashMap, VecDeque};
 
-pub fn collect<'tcx>(_tcx: TyCtxt<'tcx>) -> J {
-    J::Null
+const MAX_NODES: usize = 60_000;
+
+pub fn collect<'tcx>(tcx: TyCtxt<'tcx>) -> J {
+    let spec = match std::env::var("YLINT_MONO_ROOTS") {
+        Ok(s) if !s.is_empty() => s,
+        _ => return J::Null,
+    };
+    let wanted: Vec<&str> = spec.split(';').map(|s| s.trim()).filter(|s| !s.is_empty()).collect();
+    let mut roots: Vec<Instance<'tcx>> = Vec::new();
+    let mut root_names: Vec<J> = Vec::new();
+    let mut missing: Vec<J> = Vec::new();
+
+    // named roots
+    let mut by_path: HashMap<String, DefId> = HashMap::new();
+    for ldid in tcx.hir_body_owners() {
+        let did = ldid.to_def_id();
+        match tcx.def_kind(did) {
+            DefKind::Fn | DefKind::AssocFn => {
+                by_path.insert(cpath(tcx, did).replace("crate::", ""), did);
+            }
+            _ => {}
+        }
+    }
+    for w in wanted.iter() {
+        if *w == "@decode-impls" {
+            for id in tcx.hir_crate_items(()).definitions() {
+                let imp = id.to_def_id();
+                if let DefKind::Impl { of_trait: true } = tcx.def_kind(imp) {
+                    let tref = tcx.impl_trait_ref(imp).instantiate_identity().skip_norm_wip();
+                    let tp = path_str(tcx, tref.def_id);
+                    if !tp.ends_with("updates::decoder::Decode") {
+                        continue;
+                    }
+                    let self_ty = tref.self_ty();
+                    if self_ty.has_param() {
+                        continue;
+                    }
+                    for m in ["decode_v1", "decode_v2"] {
+                        let sym = rustc_span::Symbol::intern(m);
+                        for it in tcx.associated_items(tref.def_id).filter_by_name_unhygienic(sym) {
+                            let args = tcx.mk_args(&[self_ty.into()]);
+                            if let Ok(Some(inst)) = Instance::try_resolve(tcx, ty::TypingEnv::fully_monomorphized(), it.def_id, args) {
+                                roots.push(inst);
+                                root_names.push(J::s(format!("<{} as Decode>::{}", ty_str(self_ty), m)));
+                            }
+                        }
+                    }
+                }
+            }
+            continue;
+        }
+        match by_path.get(&w.replace("yrs::", "").replace("crate::", "")) {
+            Some(did) => {
+                let args = ty::GenericArgs::identity_for_item(tcx, *did);
+                roots.push(Instance::new_raw(*did, args));
+                root_names.push(J::s(w.to_string()));
+            }
+            None => missing.push(J::s(w.to_string())),
+        }
+    }
+
+    // worklist
+    let mut index: HashMap<Instance<'tcx>, usize> = HashMap::new();
+    let mut nodes: Vec<Instance<'tcx>> = Vec::new();
+    let mut edges: Vec<(usize, usize)> = Vec::new();
+    let mut unresolved: HashMap<String, usize> = HashMap::new();
+    let mut virtuals: HashMap<String, usize> = HashMap::new();
+    let mut no_mir: HashMap<String, usize> = HashMap::new();
+    let mut queue: VecDeque<usize> = VecDeque::new();
+    let mut truncated = false;
+    for r in roots.iter() {
+        if !index.contains_key(r) {
+            index.insert(*r, nodes.len());
+            nodes.push(*r);
+            queue.push_back(nodes.len() - 1);
+        }
+    }
+    while let Some(i) = queue.pop_front() {
+        let inst = nodes[i];
+        let did = inst.def_id();
+        let walkable = matches!(inst.def, InstanceKind::Item(_) | InstanceKind::ClosureOnceShim { .. } | InstanceKind::ReifyShim(..));
+        if !walkable || !tcx.is_mir_available(did) {
+            if walkable {
+                *no_mir.entry(cpath(tcx, did)).or_insert(0) += 1;
+            }
+            continue;
+        }
+        if matches!(tcx.def_kind(did), DefKind::Ctor(..)) {
+            continue;
+        }
+        let body = tcx.instance_mir(inst.def);
+        let poly = inst.args.has_param();
+        let env = if poly { ty::TypingEnv::post_analysis(tcx, did) } else { ty::TypingEnv::fully_monomorphized() };
+        for bb in body.basic_blocks.iter() {
+            if bb.is_cleanup {
+                continue;
+            }
+            let term = bb.terminator();
+            let (func, _is_tail) = match &term.kind {
+                TerminatorKind::Call { func, .. } => (func, false),
+                TerminatorKind::TailCall { func, .. } => (func, true),
+                _ => continue,
+            };
+            let fty = func.ty(&body.local_decls, tcx);
+            let fty = if poly {
+                fty
+            } else {
+                match inst.try_instantiate_mir_and_normalize_erasing_regions(tcx, env, ty::EarlyBinder::bind(fty)) {
+                    Ok(t) => t,
+                    Err(_) => {
+                        *unresolved.entry(format!("normalisation failed in {}", cpath(tcx, did))).or_insert(0) += 1;
+                        continue;
+                    }
+                }
+            };
+            let (cdid, cargs) = match fty.kind() {
+                ty::FnDef(d, a) => (*d, *a),
+                _ => {
+                    *unresolved.entry("<fn pointer / dyn call>".to_string()).or_insert(0) += 1;
+                    continue;
+                }
+            };
+            if tcx.intrinsic(cdid).is_some() {
+                continue;
+            }
+            match Instance::try_resolve(tcx, env, cdid, cargs) {
+                Ok(Some(callee)) => {
+                    match callee.def {
+                        InstanceKind::Virtual(..) => {
+                            *virtuals.entry(cpath(tcx, cdid)).or_insert(0) += 1;
+                            continue;
+                        }
+                        InstanceKind::Intrinsic(_) => continue,
+                        _ => {}
+                    }
+                    let j = match index.get(&callee) {
+                        Some(j) => *j,
+                        None => {
+                            if nodes.len() >= MAX_NODES {
+                                truncated = true;
+                                continue;
+                            }
+                            index.insert(callee, nodes.len());
+                            nodes.push(callee);
+                            queue.push_back(nodes.len() - 1);
+                            nodes.len() - 1
+                        }
+                    };
+                    edges.push((i, j));
+                }
+                _ => {
+                    *unresolved.entry(cpath(tcx, cdid)).or_insert(0) += 1;
+                }
+            }
+        }
+    }
+
+    // project: local nodes + local->local edges (through foreign intermediates)
+    let is_local = |k: usize| nodes[k].def_id().krate == LOCAL_CRATE;
+    let mut adj: Vec<Vec<usize>> = vec![Vec::new(); nodes.len()];
+    for (a, b) in edges.iter() {
+        adj[*a].push(*b);
+    }
+    let mut local_edges: Vec<J> = Vec::new();
+    let mut foreign_direct: HashMap<(usize, String), ()> = HashMap::new();
+    for a in 0..nodes.len() {
+        if !is_local(a) {
+            continue;
+        }
+        // BFS through foreign nodes
+        let mut seen = vec![a];
+        let mut st = vec![a];
+        let mut targets: Vec<(usize, bool)> = Vec::new();
+        while let Some(x) = st.pop() {
+            for &y in adj[x].iter() {
+                if seen.contains(&y) && y != a {
+                    continue;
+                }
+                if is_local(y) {
+                    if !targets.iter().any(|t| t.0 == y) {
+                        targets.push((y, x != a));
+                    }
+                } else {
+                    if x == a {
+                        foreign_direct.insert((a, cpath(tcx, nodes[y].def_id())), ());
+                    }
+                    if !seen.contains(&y) {
+                        seen.push(y);
+                        if seen.len() < 4000 {
+                            st.push(y);
+                        }
+                    }
+                }
+            }
+        }
+        for (t, via) in targets {
+            local_edges.push(J::Arr(vec![J::n(a), J::n(t), J::Bool(via)]));
+        }
+    }
+    let mut node_js = Vec::new();
+    for (k, n) in nodes.iter().enumerate() {
+        if !is_local(k) {
+            node_js.push(J::Null);
+            continue;
+        }
+        node_js.push(obj! {
+            "path": J::s(cpath(tcx, n.def_id())),
+            "args": if n.args.is_empty() { J::Null } else { J::s(ty::print::with_crate_prefix!(ty::print::with_no_trimmed_paths!(format!("{:?}", n.args)))) },
+            "kind": J::s(format!("{:?}", n.def).split('(').next().unwrap_or("").to_string()),
+        });
+    }
+    let to_arr = |m: HashMap<String, usize>| {
+        let mut v: Vec<(String, usize)> = m.into_iter().collect();
+        v.sort();
+        J::Arr(v.into_iter().map(|(k, c)| J::Arr(vec![J::s(k), J::n(c)])).collect())
+    };
+    let mut fd: Vec<(usize, String)> = foreign_direct.into_keys().collect();
+    fd.sort();
+    obj! {
+        "roots": J::Arr(root_names),
+        "missing_roots": J::Arr(missing),
+        "n_instances": J::n(nodes.len()),
+        "n_local": J::n((0..nodes.len()).filter(|k| is_local(*k)).count()),
+        "truncated": J::Bool(truncated),
+        "nodes": J::Arr(node_js),
+        "edges": J::Arr(local_edges),
+        "foreign_direct": J::Arr(fd.into_iter().map(|(a, p)| J::Arr(vec![J::n(a), J::s(p)])).collect()),
+        "unresolved": to_arr(unresolved),
+        "virtual": to_arr(virtuals),
+        "no_mir": to_arr(no_mir),
+    }
 }
